@@ -7,7 +7,7 @@ from pyasn1.type import tag as ptag
 from pyasn1.codec.ber import encoder as ber_encoder
 from pyasn1.codec.ber import decoder as ber_decoder
 
-NUMS = [0, 1, 30, 31, 127, 128, 16383, 16384, 2 ** 32, 2 ** 64 + 1, 2 ** 61 - 2, 2 ** 61 - 1, 2 ** 61]
+NUMS = [0, 1, 30, 31, 127, 128, 16383, 16384, 2 ** 32, 2 ** 64 + 1, 2 ** 61 - 2, 2 ** 61 - 1, 2 ** 61, 2 ** 63, 2 ** 70 - 1, 2 ** 70, 2 ** 200 + 5]
 # numbers that collide under the interpreter's integer hash (mod 2**61 - 1) or under 32/64-bit truncation: a near miss
 # that differs from n by one of these must still be refused
 COLLIDERS = [2 ** 61 - 1, 2 * (2 ** 61 - 1), 2 ** 32, 2 ** 64, 128, 2 ** 7 * 3]
